@@ -298,6 +298,7 @@ func c12CheckLine(c *core.Ctx, line string, id int, valid, noise *[]string) {
 		}
 		w.What = "IsHigherPriority/NewMatchingResult/GetDNSBasicRule"
 		c.Guard("priority-and-selection", nil, w, func() {
+			c07Ensure()
 			for i := 0; i < 6; i++ {
 				o := c07Pool[c.Rng.Intn(len(c07Pool))].Rule
 				_ = nr.IsHigherPriority(o)
@@ -351,11 +352,30 @@ func FuzzValueC10(c *core.Ctx, value string) {
 	c10Check(c, c10Case{Value: value, Note: "fuzz"})
 }
 
+// c12FirstLines are the lines the first cases start with; these cases are run
+// once more each as the first case of a fresh process (Cold), where the line
+// is the first one the library sees since the process started: one per kind of
+// rule, modifier family and constructor path.
+var c12FirstLines = []string{
+	"/banner\\d+/", "@@/^https?:\\/\\/cdn\\.example\\.org\\/ads/", "/ads[0-9]+/$script,domain=a.com", "/(?!x)/", "/[/",
+	"||a.com^", "@@||a.com^$important", "a.com", "0.0.0.0 a.com", "::1 a.com b.a.com", "a.com##.banner", "a.com#@#.banner", "##.generic", "a.com#$#body { x }", "a.com#%#alert(1)", "a.com$$script[x]",
+	"||a.com^$dnsrewrite=1.2.3.4", "||a.com^$dnsrewrite=NOERROR;HTTPS;1 . alpn=h3", "||a.com^$dnsrewrite=NOERROR;MX;10 mail.a.com", "||a.com^$client=Mom", "||a.com^$client=10.0.0.0/8", "||a.com^$ctag=device_pc", "||a.com^$dnstype=A",
+	"||a.com^$denyallow=b.com", "||a.com^$domain=example.org", "||a.com^$domain=example.*", "||a.com^$badfilter", "||a.com^$replace=/a/b/", "||a.com^$third-party,script,~image", "||a.com^$match-case", "|http://a.com/*banner|", "||\u043f\u0440\u0438\u043c\u0435\u0440.\u0440\u0444^",
+	"||a.com^$nosuchmodifier", "! comment", "", "# comment", "||a.com^$removeparam=x", "||a.com^$csp=script-src 'none'", "||a.com^$cookie=x", "||a.com^$redirect=noopjs", "*$document", "@@||a.com^$document", "||a.com^$popup", "$$", "|", "||a.com\\$x^",
+}
+
 func c12Run(c *core.Ctx, idx int) {
 	c12LoadReal(c.Env)
 	id := []int{1, 0, -5, 1 << 30}[c.Rng.Intn(4)]
 	var valid, noise []string
 	var batch []string
+	if idx < len(c12FirstLines) {
+		line := c12FirstLines[idx]
+		batch = append(batch, line)
+		c12CheckLine(c, line, id, &valid, &noise)
+		c12Answers(c, c12Witness{Lines: []string{line}, What: "the first line"}, c12Requests(c, line), line+"\n")
+		c.Event("cases_starting_with_a_fixed_first_line", 1)
+	}
 	for k := 0; k < 24; k++ {
 		line := c12Line(c, true)
 		batch = append(batch, line)
@@ -542,7 +562,7 @@ func init() {
 	core.Register(&core.Prop{
 		ID:    "C12",
 		Level: "exploration",
-		Rule: "per case 24 lines: grammar-rendered rules with every modifier kind, lines of the four bundled lists, regex-grammar rules, hosts and cosmetic lines and a table of ~130 hand-made hostile lines, half of them with 0..3 byte mutations (insert, delete, replace, duplicate a span, splice with another line), occasionally > 5 KiB; " +
+		Rule: "the first 46 cases start with one fixed line per kind of rule / modifier family and are run once more each as the first case of a fresh process; per case 24 lines: grammar-rendered rules with every modifier kind, lines of the four bundled lists, regex-grammar rules, hosts and cosmetic lines and a table of ~130 hand-made hostile lines, half of them with 0..3 byte mutations (insert, delete, replace, duplicate a span, splice with another line), occasionally > 5 KiB; " +
 			"each line through NewRule (nil/rule/error trichotomy, Text()==TrimSpace(line), list id), NewNetworkRule, NewHostRule, NewCosmeticRule, every obtained rule through Match twice on 9 requests (URL and hostname, one built from the line itself), IsHigherPriority, NewMatchingResult, GetDNSBasicRule, DNSRewrites, and the whole batch through construction and querying of Engine, NetworkEngine, DNSEngine and CosmeticEngine; " +
 			"the parsed lines loaded as two lists with different ids (the rules returned under one id are those returned under the other); " +
 			"metamorphic: inserting the blank/comment/rejected lines anywhere, CRLF line ends and a missing final newline leave every engine answer unchanged; panics and dead workers are violations with the journalled input; non-trivial = line that parses to a rule; distinct by line",
@@ -551,6 +571,13 @@ func init() {
 			"lines containing NUL are excluded from the inertness lists only (they are still parsed and matched)",
 		},
 		Setup: func(env *core.Env) { c12LoadReal(env) },
+		Cold: func(core.Tier) (out []int) {
+			for i := range c12FirstLines {
+				out = append(out, i)
+			}
+
+			return out
+		},
 		Cases: func(t core.Tier) int { return sizes[t] },
 		Run:   c12Run,
 	})
